@@ -3495,6 +3495,29 @@ class OpAlignPartitions(MaybeAlignPartitions):
     def _meta(self):
         return getattr(self.frame._meta, self.op)(self.other._meta)
 
+    def _simplify_up(self, parent, dependents):
+        if isinstance(parent, Projection):
+            if self.frame.ndim < 2 or self.other.ndim < 2:
+                # frame <op> series aligns the series with the columns
+                return
+            # Both operands carry the column labels. Narrowing only one of
+            # them makes pandas align the other labels back in as NaN columns.
+            columns = determine_column_projection(self, parent, dependents)
+            columns = _convert_to_list(columns)
+            frame_cols = [col for col in self.frame.columns if col in columns]
+            other_cols = [col for col in self.other.columns if col in columns]
+            if frame_cols == self.frame.columns and other_cols == self.other.columns:
+                return
+            frame = self.frame
+            if frame_cols != self.frame.columns:
+                frame = frame[frame_cols]
+            other = self.other
+            if other_cols != self.other.columns:
+                other = other[other_cols]
+            return type(parent)(
+                type(self)(frame, other, *self.operands[2:]), *parent.operands[1:]
+            )
+
     def _lower(self):
         # This can be expensive when something that has expensive division
         # calculation is in the Expression
